@@ -495,8 +495,8 @@ void EntityManager::applyStorage(TemporalStorage& storage) { // optimized versio
     Entity prev_entity = storage.actions_[begin].entity;
     for (; end < storage.actions_.size(); ++end) {
         const auto& action = storage.actions_[end];
-        if (action.entity == prev_entity) {
-            continue;
+        if (action.entity == prev_entity && action.action != TemporalStorage::Action::kCreateEntity) {
+            continue; // a creation always opens a new pack, whatever was recorded for that handle pattern before
         }
         applyCommandPack(storage, begin, end);
         begin = end;
